@@ -134,6 +134,67 @@ var aIdentShapes = []aShape{
 	{"tz-minus-0930", "N A Me <n@example.com> 1700000000 -0930", false},
 }
 
+// aLongLineCases: objects in git's own layout with ONE line longer than the
+// usual reader buffers (4 KiB bufio default, 64 KiB): message line, unknown
+// header value, continuation line of an unknown header and of gpgsig, identity
+// name. Labels ending in "-long" are treated like their short kinds by
+// aLayoutClass.
+func aLongLineCases() []aCase {
+	var out []aCase
+	a, cm, tgr := aCommitLineKinds[0], aCommitLineKinds[1], aTagLineKinds[0]
+	for _, n := range []int{5000, 70000} {
+		v := strings.Repeat("v", n)
+		sfx := fmt.Sprintf("-%d", n)
+		msg := aMsg{Label: "long-line" + sfx, Sep: true, Body: "m\n\n" + v + "\nend\n"}
+		plain := aPlainMsgs[3]
+		longA := aLine{"author", "author " + strings.Repeat("N", n) + " <author@example.com> 1700000000 +0100\n"}
+		longT := aLine{"tagger", "tagger " + strings.Repeat("N", n) + " <tagger@example.com> 1700000002 +0530\n"}
+		pgpLong := "-----BEGIN PGP SIGNATURE-----\n\n" + v + "\n=abcd\n-----END PGP SIGNATURE-----\n"
+		for _, lines := range [][]aLine{
+			{a, cm},
+			{longA, cm},
+			{a, cm, {"foo-long" + sfx, "foo " + v + "\n"}},
+			{a, cm, {"cont-long" + sfx, "bar a\n " + v + "\n b\n"}},
+			{a, cm, {"gpgsig-long" + sfx, aHdr("gpgsig", pgpLong)}},
+			{a, cm, {"cont-long" + sfx, "bar a\n " + v + "\n b\n"}, {"gpgsig-long" + sfx, aHdr("gpgsig", pgpLong)}},
+		} {
+			m := plain
+			if len(lines) == 2 && lines[0].Text == a.Text {
+				m = msg
+			}
+			out = append(out, aCase{Kind: "commit", Parents: 1, Lines: lines, Msg: m})
+		}
+		out = append(out,
+			aCase{Kind: "tag", TType: "commit", Lines: []aLine{tgr}, Msg: msg},
+			aCase{Kind: "tag", TType: "commit", Lines: []aLine{longT}, Msg: plain},
+			aCase{Kind: "tag", TType: "commit", Lines: []aLine{tgr}, Msg: aMsg{Label: "long-line" + sfx + "+pgp", Sep: true, Body: msg.Body + aPGP}},
+			aCase{Kind: "tag", TType: "commit", Lines: []aLine{tgr}, Msg: aMsg{Label: "m+pgp-long" + sfx, Sep: true, Body: "m\n" + pgpLong}},
+		)
+	}
+	return out
+}
+
+// aTrailingBlankCases: an unknown multi-line header / a mergetag whose LAST
+// continuation line is empty (" \n"), alone and followed by gpgsig.
+func aTrailingBlankCases() []aCase {
+	a, cm := aCommitLineKinds[0], aCommitLineKinds[1]
+	tb := aLine{"cont-trailing-blank", "bar a\n \n"}
+	mt := aLine{"mergetag-trailing-blank", aHdr("mergetag", "object "+aParentIDs[1]+"\ntype commit\ntag v0\ntagger T <t@x> 1 +0000\n\nmerged\n") + " \n"}
+	var out []aCase
+	for _, lines := range [][]aLine{{a, cm, tb}, {a, cm, tb, aCommitLineKinds[5]}, {a, cm, mt}, {a, cm, mt, aCommitLineKinds[5]}} {
+		out = append(out, aCase{Kind: "commit", Parents: 1, Lines: lines, Msg: aPlainMsgs[3]})
+	}
+	return out
+}
+
+// aBaseLabel strips the "-long-<n>" suffix of a long-line label.
+func aBaseLabel(l string) string {
+	if i := strings.Index(l, "-long-"); i >= 0 {
+		return l[:i]
+	}
+	return l
+}
+
 // Raw assembles the object bytes.
 func (k aCase) Raw() []byte {
 	var b strings.Builder
@@ -299,7 +360,10 @@ func aLayoutClass(k aCase) string {
 		rest := lb[2:]
 		stage := 0 // 0 encoding allowed, 1 extras, 2 after gpgsig, 3 after gpgsig-sha256
 		for _, l := range rest {
-			switch l {
+			if strings.HasSuffix(l, "-trailing-blank") {
+				return "extra header whose value ends in an empty continuation line"
+			}
+			switch aBaseLabel(l) {
 			case "encoding":
 				if stage > 0 {
 					return "encoding header not directly after committer"
